@@ -61,7 +61,7 @@ META = {
         "order-preserving work list); the ordered-list start reaches the node for every legal start including 0 (decision table of the guards and the stored value), copy_attributes never "
         "tests the truthiness of a value it copies; the code language derives from token.info and is its first whitespace-delimited word (cut with str.split on any whitespace, as markdown-it's fence renderer does, not at one separator character); "
         "a forward flow analysis of the percent-encoding state (attrGet/normalizeLink = encoded, normalizeLinkText = decoded) shows that no refuri/uri receives a decoded value on any path (an id_link refuri is a local target name, C09); "
-        "html_to_nodes' convertibility gate and conversion loop range over every child of the parsed HTML (all-or-nothing conversion of a raw-HTML leaf); no output-format encoder (escapeHtml, html.escape ...) lies between the href/src and the stored destination; the fragments of the library lexer add up to the code text, checked as two facts read off the docutils/pygments sources: "
+        "html_to_nodes' convertibility gate and conversion loop range over every child of the parsed HTML (all-or-nothing conversion of a raw-HTML leaf); no output-format encoder (escapeHtml, html.escape ...) lies between the href/src and the stored destination; the fragments of the library lexer add up to the code text (the lexing may live in the highlighter or in a helper that is handed the text), checked as two facts read off the docutils/pygments sources: "
         "(1) pygments' default stripnl=True (docutils passes no options) must be switched off on the lexer on every path to the fragment loop, (2) the final newline that docutils' Lexer.merge strips must be put back, "
         "(3) the joined fragments are compared with the text and the text is used as a single fragment on a mismatch (lexers are lossy in general). A refname / reftarget is a target name and must not be markdown-it's percent-encoded href. "
         "Known findings on the current tree: render_link_url stores escapeHtml(uri) as refuri (R3); the final newline of highlighted code is not restored in the docutils back end (R3); a rubric heading is its own message node for note_implicit_target (R2 h). "
@@ -2902,6 +2902,26 @@ def _generic_copy_not_truthy(corpus: Corpus, rep: Report) -> None:
             rep.ok("C02.R3", k, f.module.site(st), "guards test the key, not the value")
 
 
+def _lexing_function(an: "Nesting", hl: FunctionInfo, tp: str):
+    """(function that constructs the docutils Lexer, its text parameter, call in the highlighter that reaches it): the
+    highlighter itself, or a helper (method or module function, one or two levels) that is handed the text."""
+    def has_lexer(f: FunctionInfo) -> bool:
+        return any(isinstance(c, ast.Call) and f.module.resolve(dotted(c.func) or "").endswith("code_analyzer.Lexer") for c in f.local_nodes())
+
+    if has_lexer(hl):
+        return hl, tp, None
+    for c in sorted((c for c in hl.local_nodes() if isinstance(c, ast.Call)), key=lambda c: (c.lineno, c.col_offset)):
+        if not any(isinstance(a, ast.Name) and a.id == tp for a in list(c.args) + [k.value for k in c.keywords]):
+            continue
+        for m in an.call_targets_safe(c, hl):
+            if m.is_lambda or not has_lexer(m):
+                continue
+            ps = an._param_for_arg(c, m, lambda x: isinstance(x, ast.Name) and x.id == tp)
+            if len(ps) == 1:
+                return m, ps[0], c
+    raise Unsupported("create_highlighted_code_block: no construction of the docutils Lexer found in it or in a helper that receives the text")
+
+
 def _lexer_conservation(corpus: Corpus, rep: Report, hl: FunctionInfo) -> None:
     """'create_highlighted_code_block must preserve code text whether or not pygments splits it': the fragments of the
     library lexer must concatenate to the text handed in. Two independent facts are read off the library sources:
@@ -2912,7 +2932,8 @@ def _lexer_conservation(corpus: Corpus, rep: Report, hl: FunctionInfo) -> None:
     k1 = f"{hl.fq}|pygments lexer keeps leading and trailing blank lines"
     k2 = f"{hl.fq}|final newline dropped by docutils Lexer.merge is restored"
     tp = hl.params[1]
-    lex_calls = [c for c in hl.local_nodes() if isinstance(c, ast.Call) and hl.module.resolve(dotted(c.func) or "").endswith("code_analyzer.Lexer")]
+    lf, ltp, _call = _lexing_function(_nesting(corpus, corpus.cls(RENDERER)), hl, tp)
+    lex_calls = [c for c in lf.local_nodes() if isinstance(c, ast.Call) and lf.module.resolve(dotted(c.func) or "").endswith("code_analyzer.Lexer")]
     active = [c for c in lex_calls if not (len(c.args) > 2 and isinstance(c.args[2], ast.Constant) and c.args[2].value == "none")]
     if not active:
         rep.ok("C02.R3", k1, hl.site(), "no lexical analysis: the text is stored as one fragment")
@@ -2939,8 +2960,23 @@ def _lexer_conservation(corpus: Corpus, rep: Report, hl: FunctionInfo) -> None:
     if len(loops) != 1:
         raise Unsupported("create_highlighted_code_block: fragment loop not found")
     loop = loops[0]
-    cfg = get_cfg(hl)
-    site = hl.module.site(active[0])
+    cfg = get_cfg(lf)
+    site = lf.module.site(active[0])
+    # where the lexing function is done with the lexer: the fragment loop (same function) or its normal exit (helper);
+    # the point where the lexer is first iterated, if that is a recognisable statement
+    done_at = loop if lf is hl else EXIT
+    lexer_vars = set()
+    for c in lex_calls:
+        p_ = parent(c)
+        if isinstance(p_, ast.Assign) and isinstance(p_.targets[0], ast.Name):
+            lexer_vars.add(p_.targets[0].id)
+    iter_points = []
+    for n in lf.local_nodes():
+        if isinstance(n, ast.Assign) and isinstance(n.value, ast.Call) and dotted(n.value.func) in ("list", "tuple") and n.value.args and isinstance(n.value.args[0], ast.Name) and n.value.args[0].id in lexer_vars:
+            iter_points.append(n)
+        elif isinstance(n, ast.For) and isinstance(n.iter, ast.Name) and n.iter.id in lexer_vars and lf is hl and n is loop and not any(isinstance(d, ast.Call) for nm in [n.iter.id] for d in _all_defs(lf, nm) if isinstance(d, ast.Call) and dotted(d.func) in ("list", "tuple")):
+            iter_points.append(n)
+    first_iter = min(iter_points, key=lambda n: n.lineno) if iter_points else done_at
 
     # (1) stripnl
     if not (default_opts and stripnl_default is True):
@@ -2976,7 +3012,7 @@ def _lexer_conservation(corpus: Corpus, rep: Report, hl: FunctionInfo) -> None:
             return False
 
         start = cfg.stmt_of(active[0])
-        leak = cfg.paths_avoiding(start, loop, lambda n: (isinstance(n, ast.stmt) and switches_off(n)) or no_lexer_edge(n) or (isinstance(n, tuple) and n[0] == "H"))
+        leak = cfg.paths_avoiding(start, first_iter, lambda n: (isinstance(n, ast.stmt) and switches_off(n)) or no_lexer_edge(n) or (isinstance(n, tuple) and n[0] == "H"))
         if leak:
             rep.violation("C02.R3", k1, site, "docutils' Lexer builds the pygments lexer with default options and pygments' default `stripnl=True` strips leading and trailing newlines; "
                           f"on some path from the Lexer construction to the fragment loop `stripnl` is not switched off on the lexer: code that starts or ends with blank lines is not kept verbatim by the docutils back end (```python\\n\\nx = 1\\n``` becomes 'x = 1')")
@@ -2987,16 +3023,21 @@ def _lexer_conservation(corpus: Corpus, rep: Report, hl: FunctionInfo) -> None:
     #     used if they add up to the text; otherwise the text goes in as one fragment
     k3 = f"{hl.fq}|lexed fragments are used only if they add up to the code text"
     checks = []
-    for n in hl.local_nodes():
-        if isinstance(n, ast.If) and any(isinstance(c, ast.Compare) and (unparse(c.left) == tp or any(tp in unparse(x) for x in c.comparators)) for c in ast.walk(n.test)):
+    for n in lf.local_nodes():
+        if isinstance(n, ast.If) and any(isinstance(c, ast.Compare) and (unparse(c.left) == ltp or any(ltp in unparse(x) for x in c.comparators)) for c in ast.walk(n.test)):
             joins = [c for c in ast.walk(n.test) if isinstance(c, ast.Call) and isinstance(c.func, ast.Attribute) and c.func.attr == "join"]
             names_in_test = {x.id for x in ast.walk(n.test) if isinstance(x, ast.Name)}
-            joined = bool(joins) or any(isinstance(d, ast.Call) and isinstance(d.func, ast.Attribute) and d.func.attr == "join" for nm in names_in_test for d in _all_defs(hl, nm))
-            fallback = any(isinstance(st, ast.Assign) and isinstance(st.targets[0], ast.Name) and st.targets[0].id == unparse(loop.iter) and _mentions(st.value, tp) for st in ast.walk(n))
+            joined = bool(joins) or any(isinstance(d, ast.Call) and isinstance(d.func, ast.Attribute) and d.func.attr == "join" for nm in names_in_test for d in _all_defs(lf, nm))
+            # on a mismatch the text itself becomes the only fragment: by rebinding the fragments, or by returning it
+            fallback = any(
+                (isinstance(st, ast.Assign) and isinstance(st.targets[0], ast.Name) and _mentions(st.value, ltp) and (lf is not hl or st.targets[0].id == unparse(loop.iter)))
+                or (isinstance(st, ast.Return) and lf is not hl and _mentions(st.value, ltp))
+                for b in (n.body, n.orelse) for x in b for st in ast.walk(x)
+            )
             if joined and fallback:
                 checks.append(n)
-    if checks and not cfg.paths_avoiding(cfg.stmt_of(active[0]), loop, lambda n: any(n is c for c in checks) or (isinstance(n, tuple) and n[0] == "H")):
-        rep.ok("C02.R3", k3, hl.module.site(checks[0]), "the joined fragments are compared with the text; on a mismatch the text is used as a single fragment")
+    if checks and not cfg.paths_avoiding(cfg.stmt_of(active[0]), done_at, lambda n: any(n is c for c in checks) or (isinstance(n, tuple) and n[0] == "H")):
+        rep.ok("C02.R3", k3, lf.module.site(checks[0]), "the joined fragments are compared with the text; on a mismatch the text is used as a single fragment")
     else:
         rep.violation("C02.R3", k3, site, "the fragments that pygments yields are put into the literal block without checking that they add up to the code text: pygments pre-processes its input "
                       "(a leading U+FEFF is dropped) and some lexers are lossy ('```robotframework' turns 'a\\tb\\x0cc' into 'a b\\nc'), so the code is not kept verbatim by the docutils back end while Sphinx and an unhighlighted fence keep it")
@@ -3348,6 +3389,25 @@ def r3_verbatim_leaves(corpus: Corpus, rep: Report, tier: str):
     else:
         n_hl = 0
         lexvars: set[str] = set()
+        lexfn, lex_tp, lex_call = _lexing_function(_nesting(corpus, corpus.cls(RENDERER)), hl, tp)
+        if lexfn is not hl:
+            # the lexing moved into a helper: its text parameter must receive the highlighter's text, its Lexer(...) that parameter
+            rep.saw_function(lexfn.fq)
+            p_ = parent(lex_call)
+            while p_ is not None and not isinstance(p_, ast.stmt):
+                p_ = parent(p_)
+            if isinstance(p_, (ast.Assign, ast.AnnAssign)):
+                tg = p_.targets[0] if isinstance(p_, ast.Assign) else p_.target
+                if isinstance(tg, ast.Name):
+                    lexvars.add(tg.id)
+            for c in sorted((c for c in lexfn.local_nodes() if isinstance(c, ast.Call) and lexfn.module.resolve(dotted(c.func) or "").endswith("code_analyzer.Lexer")), key=lambda c: (c.lineno, c.col_offset)):
+                n_hl += 1
+                ordk = sum(1 for i in rep.items if i.rule == "C02.R3" and i.key.startswith(f"{hl.fq}|Lexer input"))
+                k = f"{hl.fq}|Lexer input" + (f"#{ordk + 1}" if ordk else "")
+                if c.args and isinstance(c.args[0], ast.Name) and c.args[0].id == lex_tp and not _all_defs(lexfn, lex_tp):
+                    rep.ok("C02.R3", k, lexfn.module.site(c), f"{lex_tp} (= {tp} of the highlighter, in {lexfn.name})")
+                else:
+                    rep.violation("C02.R3", k, lexfn.module.site(c), f"the lexer is fed `{short(c.args[0], 40) if c.args else ''}`, not the code text handed in")
         for c in sorted((c for c in hl.local_nodes() if isinstance(c, ast.Call)), key=lambda c: (c.lineno, c.col_offset)):
             d = dotted(c.func) or ""
             is_param_ctor = isinstance(c.func, ast.Name) and c.func.id in hl.params
